@@ -96,7 +96,11 @@ def handle : Handler
     | "unique" =>
       let some new := (kw? args "new").bind Val.asFloats? | return "bad-op"
       let some full := (kw? args "full").bind Val.asFloats? | return "bad-op"
-      return showR (unique full x new)
+      -- the pool contract (`new` is `list(set(full) - set(x))` in some order) is reported beside the result
+      let pool := if uniquePoolOk full x new then "ok" else "bad"
+      match unique full x new with
+      | .ok y => return s!"ok y={pFs y} pool={pool}"
+      | .error e => return s!"err {e.str}"
     | "bounds" =>
       let some spec := (kw? args "spec").bind parseSpec | return "bad-op"
       return showR (.ok (imposeBounds (spec.map fun e => (e.1, e.2.map normIv)) x))
